@@ -116,6 +116,45 @@ func c11R2(c *Ctx, r *Report) {
 		}
 		r.Check("C11-R2", "fn="+c.FuncName(lit)+" no-post-commit-effects-before-commit", c.Pos(lit.Pos()), bad == "", "no invalidation / cache insert / cleanup inside the pre-commit callback", "post-commit effect issued before the commit point: "+bad+" (would take effect even if the write is then rejected or loses the CAS race)")
 	}
+	// a rejected write leaves nothing behind: inside documentUpdateFunc every storage-mutating step is dominated by the
+	// success edge of every rejection point (existing-doc validation, the update callback with its conflict checks,
+	// body validation/preparation, the sync function)
+	if duf := c.Func("(*db.DatabaseCollectionWithUser).documentUpdateFunc"); duf == nil {
+		r.Fail("C11-R2", "anchor documentUpdateFunc", "-", "function not found")
+	} else {
+		gates := []string{"db.validateExistingDoc", "(*db.DatabaseCollectionWithUser).prepareSyncFn", "(*db.DatabaseCollectionWithUser).runSyncFn"}
+		gateEdges := map[string][]Edge{}
+		for _, g := range gates {
+			for _, call := range c.Calls(duf, false, nameIs(g)) {
+				ev := errValueOf(call.(*ssa.Call))
+				_, neg := EdgesOnValue(duf, func(v ssa.Value) bool { return unwrapLoadFree(v) == ev })
+				gateEdges[g] = append(gateEdges[g], neg...)
+			}
+		}
+		// the update callback is a dynamic call of the callback parameter
+		for _, b := range duf.Blocks {
+			for _, in := range b.Instrs {
+				if call, ok := in.(*ssa.Call); ok {
+					if p, ok := call.Call.Value.(*ssa.Parameter); ok && p.Name() == "callback" {
+						ev := errValueOf(call)
+						_, neg := EdgesOnValue(duf, func(v ssa.Value) bool { return unwrapLoadFree(v) == ev })
+						gateEdges["callback(doc)"] = append(gateEdges["callback(doc)"], neg...)
+					}
+				}
+			}
+		}
+		gates = append(gates, "callback(doc)")
+		effects := []string{"(*db.DatabaseCollectionWithUser).addAttachments", "(*db.DatabaseCollectionWithUser).backupAncestorRevs", "(*db.Document).persistModifiedRevisionBodies", "(*db.DatabaseCollectionWithUser).assignSequence"}
+		for _, ef := range effects {
+			for _, call := range c.Calls(duf, false, nameIs(ef)) {
+				for _, g := range gates {
+					ok := len(gateEdges[g]) > 0 && DominatedBy(duf, call, NewAvoid().AddEdge(gateEdges[g]...))
+					r.Check("C11-R2", fmt.Sprintf("fn=documentUpdateFunc effect=%s after-accepted-by=%s", CalleeIdent(call), g), c.Pos(call.Pos()), ok,
+						"dominated by the acceptance edge", "a storage side effect of the write ("+CalleeIdent(call)+") can happen before "+g+" has accepted it: a rejected write would leave attachments, backups or a consumed sequence behind")
+				}
+			}
+		}
+	}
 	// pre-commit side effects: who may call
 	pre := map[string]map[string]bool{
 		"(*db.DatabaseCollectionWithUser).addAttachments":    {"(*db.DatabaseCollectionWithUser).documentUpdateFunc": true},
